@@ -12,7 +12,9 @@ ASSUMPTIONS = [
     "builtins max/min modelled as If-terms (first-wins), int() identity on integer terms",
     "probe sub-spaces issue read-only start_time/min_start_time queries for ALL unscheduled operations (also those not ready yet) before every dispatch",
     "in every state of the unfiltered sub-spaces a request on an in-range machine the operation is not eligible for is tried on a throw-away "
-    "replica: if it is accepted, the resulting schedule is judged like any other (ineligible machine = infeasible)",
+    "replica: if it is accepted, the resulting schedule is judged like any other (ineligible machine = infeasible); in the probe sub-spaces "
+    "the same is done, in every state including the complete one, for every operation that is not ready (already scheduled - also the last one "
+    "of a finished job - or too early), with and without an explicit machine",
     "'second' sub-spaces run the history on a dispatcher that already played an episode of every length and was reset()",
 ]
 STUBS = ["max", "min", "int (dispatcher module only)"]
@@ -69,6 +71,35 @@ def check_state(eng, desc, disp, spec, k):
     eng.prove_all([(c, "C01/" + key) for c, key in conds])
 
 
+def try_rejected(eng, sp, desc, inst, spec, k):
+    """Requests that must not be ACCEPTED, tried on a throw-away replica of the current state: if one is accepted, the
+    resulting schedule is judged like any other (ineligible machine / operation twice / job order = infeasible)."""
+    from job_shop_lib.dispatching import Dispatcher
+    if sp.get("filter", "none") != "none":
+        return
+    reqs = []
+    if desc.n_machines > 1:
+        reqs += [(o_, mm) for o_ in spec.ready_ops() for mm in range(desc.n_machines) if mm not in desc.machines[o_]]
+    if sp.get("probe"):
+        # operations that are not ready: already scheduled ones (also the last one of a finished job) and too-early ones
+        ready = set(spec.ready_ops())
+        reqs += [(o_, mm) for o_ in range(desc.n_ops) if o_ not in ready for mm in desc.machines[o_] + [None]]
+    for o_, mm in reqs:
+        rep = Dispatcher(inst)
+        for ho, hm in spec.history:
+            rep.dispatch(D.op_by_id(inst, ho), hm)
+        try:
+            if mm is None:
+                rep.dispatch(D.op_by_id(inst, o_))
+            else:
+                rep.dispatch(D.op_by_id(inst, o_), mm)
+        except D.E.Unsupported:
+            raise
+        except Exception:
+            continue
+        check_state(eng, desc, rep, spec, k + 1)
+
+
 def harness(eng, sp):
     from job_shop_lib.dispatching import Dispatcher
 
@@ -99,22 +130,7 @@ def harness(eng, sp):
                 for mm in desc.machines[o_]:
                     disp.start_time(D.op_by_id(inst, o_), mm)
             disp.min_start_time(disp.unscheduled_operations())
-        if sp.get("filter", "none") == "none" and desc.n_machines > 1:
-            # a request naming a machine the operation is not eligible for must not be ACCEPTED (tried on a throw-away replica)
-            for o_ in spec.ready_ops():
-                for mm in range(desc.n_machines):
-                    if mm in desc.machines[o_]:
-                        continue
-                    rep = Dispatcher(inst)
-                    for ho, hm in spec.history:
-                        rep.dispatch(D.op_by_id(inst, ho), hm)
-                    try:
-                        rep.dispatch(D.op_by_id(inst, o_), mm)
-                    except D.E.Unsupported:
-                        raise
-                    except Exception:
-                        continue
-                    check_state(eng, desc, rep, spec, k + 1)
+        try_rejected(eng, sp, desc, inst, spec, k)
         op, m = D.choose_dispatch(eng, desc, spec)
         lop = D.op_by_id(inst, op)
         try:
@@ -135,3 +151,4 @@ def harness(eng, sp):
         complete = disp.schedule.is_complete()
         if complete != (k + 1 == desc.n_ops):
             eng.fail("C01/is_complete-wrong", f"is_complete()={complete} after {k + 1} of {desc.n_ops}")
+    try_rejected(eng, sp, desc, inst, spec, desc.n_ops)
